@@ -381,6 +381,13 @@ class Ctx:
     # a universally quantified GOAL is proved for fresh constants (sound:
     # the constants occur nowhere else); the ground terms this creates are
     # visible to the instance-wise cardinality lemmas
+    if z3.is_not(g) and z3.is_quantifier(g.arg(0)) and g.arg(0).is_exists():
+      q = g.arg(0)           # not exists x. P  ==  forall x. not P
+      g = z3.ForAll([z3.Const(q.var_name(i), q.var_sort(i))
+                     for i in range(q.num_vars())],
+                    z3.Not(z3.substitute_vars(q.body(), *reversed(
+                        [z3.Const(q.var_name(i), q.var_sort(i))
+                         for i in range(q.num_vars())]))))
     while z3.is_quantifier(g) and g.is_forall():
       consts = [z3.Const(self.sym('sk!' + g.var_name(i)), g.var_sort(i))
                 for i in range(g.num_vars())]
@@ -532,6 +539,8 @@ def conform(ctx, v, shape):
     if hasattr(shape, 'empty'):
       return shape.empty(ctx)
     raise EngineError('empty dict literal: shape %r cannot be empty' % shape)
+  if hasattr(shape, 'coerce'):
+    return shape.coerce(ctx, v)
   if isinstance(shape, TOpt):
     if isinstance(v, VNone):
       return VOpt(True, shape.inner.fresh(ctx, 'dead'))
@@ -917,6 +926,9 @@ class Exec:
       return self.lib_call(name, [a, b], {}, node)
     if isinstance(a, VSeq) and isinstance(b, VSeq) and isinstance(op, ast.Add):
       return self.lib_call('list.concat', [a, b], {}, node)
+    if isinstance(a, VTuple) and isinstance(b, VTuple) and isinstance(
+        op, ast.Add) and a.tname == b.tname:
+      return VTuple(list(a.items) + list(b.items), tname=a.tname)
     if a.kind == 'series' and is_numeric(b) and isinstance(
         op, (ast.Div, ast.Mult, ast.Add, ast.Sub)):
       # element-wise arithmetic of a Series with a scalar: same labels
@@ -1071,6 +1083,8 @@ class Exec:
     if isinstance(container, VOpaque):
       r = self.lib_call('opaque.contains', [container, item], {}, node)
       return as_bool_term(r)
+    if hasattr(container, 'py_contains'):
+      return container.py_contains(self, item, node)
     self.unsupported(node, 'in %s' % container.kind)
 
   def eval_IfExp(self, node, env):
